@@ -162,9 +162,22 @@ def build_item(item: dict[str, Any], tmp: Path):
 
     kind = item["kind"]
     if kind == "discipline":
-        out = D.Outcome()
-        rng = common.make_rng(int(item.get("seed", 0)), "c20-inputs")
-        lived = D.live_discipline(item, tmp, rng, out)
+        # (a recipe that cannot be linearized / executed at the generated input is taken at an earlier moment:
+        #  every recipe is restored by another interpreter in every run)
+        moments = [item.get("moment", "fresh")] + [m for m in ("executed", "fresh") if m != item.get("moment", "fresh")]
+        lived = None
+        for moment in moments if item.get("moment", "fresh") != "fresh" else ["fresh"]:
+            out = D.Outcome()
+            rng = common.make_rng(int(item.get("seed", 0)), "c20-inputs")
+            lived = D.live_discipline(dict(item, moment=moment), tmp, rng, out)
+            if lived is None and out.status == "noinst" and item.get("grammar", "JSONGrammar") != "JSONGrammar":
+                item["grammar"] = "JSONGrammar"  # (the class does not accept this grammar type)
+                out = D.Outcome()
+                rng = common.make_rng(int(item.get("seed", 0)), "c20-inputs")
+                lived = D.live_discipline(dict(item, moment=moment), tmp, rng, out)
+            if lived is not None or out.status == "noinst":
+                item["moment"] = moment
+                break
         if lived is None:
             return None, {"status": out.status, "detail": out.detail}
         disc, pre_inputs, done, seen = lived
@@ -172,7 +185,7 @@ def build_item(item: dict[str, Any], tmp: Path):
         if item.get("moment", "fresh") != "fresh" and pre_inputs:
             posts.append(pre_inputs[-1])  # the cached input (cache-hit path of the copy)
         posts = D.near_inputs(disc, done, seen) + posts
-        return disc, {"status": "ok", "inputs": posts, "class": type(disc).__name__, "edits_done": [k for k, _, _ in done]}
+        return disc, {"status": "ok", "inputs": posts, "class": type(disc).__name__, "edits_done": [k for k, _, _ in done], "moment": item["moment"]}
     if kind == "ad":
         from gemseo.disciplines.analytic import AnalyticDiscipline
 
@@ -548,7 +561,7 @@ def run_job(job: dict[str, Any], tmp: Path):
             if dd:
                 rec["failures"].append(("original-altered", "serializing altered the original: " + "; ".join(dd[:3]), None))
             if item["kind"] == "ad":
-                rec["ad"] = {"wenv": w["behaviour"]["env"], "readers": {}}
+                rec["ad"] = {"wenv": w["behaviour"]["env"], "exact_w": w["behaviour"]["exact"], "readers": {}}
                 for k, wh in ad_exact_failures(item, None, w["behaviour"]["exact"], "original"):
                     rec["failures"].append((k, wh, None))
             for r, ob in observed.items():
